@@ -9,6 +9,7 @@ import (
 	"context"
 	"fmt"
 	"sort"
+	"strconv"
 	"sync"
 
 	"k8s.io/apimachinery/pkg/apis/meta/v1/unstructured"
@@ -73,10 +74,20 @@ type Cluster struct {
 	Kinds map[schema.GroupKind]schema.GroupVersionResource
 	// open WATCH streams (dynamic front end): every change of the store is sent to the streams of its resource
 	watches []*cwatch
+	rv      int         // resource version: one per change of the store
+	evlog   []loggedEv  // every change, for WATCH requests that start at an earlier resource version
 }
 
-// cwatch is one WATCH stream.  It starts with an ADDED event for every matching object of the store at the time the stream
-// was opened (no gap between a LIST and the WATCH that follows it), then carries the changes.
+type loggedEv struct {
+	rv  int
+	t   watch.EventType
+	k   Key
+	obj *unstructured.Unstructured
+}
+
+// cwatch is one WATCH stream.  It starts with the changes made after the resource version it was asked for (the one the preceding
+// LIST returned: no gap between a LIST and the WATCH that follows it, and nothing the LIST already showed is repeated), then carries
+// the changes as they happen.
 type cwatch struct {
 	group, resource, ns string
 	ch                  chan watch.Event
@@ -107,25 +118,26 @@ func (w *cwatch) push(t watch.EventType, o *unstructured.Unstructured) {
 
 // notify: store lock held
 func (c *Cluster) notify(t watch.EventType, k Key, o *unstructured.Unstructured) {
+	c.rv++
+	cp := o.DeepCopy()
+	cp.SetResourceVersion(strconv.Itoa(c.rv))
+	c.evlog = append(c.evlog, loggedEv{rv: c.rv, t: t, k: k, obj: cp})
 	for _, w := range c.watches {
 		if w.group == k.Group && w.resource == k.Resource && (w.ns == "" || w.ns == k.Namespace) {
-			w.push(t, o)
+			w.push(t, cp)
 		}
 	}
 }
 
-func (c *Cluster) addWatch(ctx context.Context, group, resource, ns string) watch.Interface {
+func (c *Cluster) addWatch(ctx context.Context, group, resource, ns, fromRV string) watch.Interface {
 	c.mu.Lock()
 	defer c.mu.Unlock()
 	w := &cwatch{group: group, resource: resource, ns: ns, ch: make(chan watch.Event, 4096)}
-	var ks []Key
-	for k := range c.objs {
-		ks = append(ks, k)
-	}
-	sort.Slice(ks, func(i, j int) bool { return ks[i].String() < ks[j].String() })
-	for _, k := range ks {
-		if k.Group == group && k.Resource == resource && (ns == "" || k.Namespace == ns) {
-			w.push(watch.Added, c.objs[k])
+	if from, err := strconv.Atoi(fromRV); err == nil {
+		for _, e := range c.evlog {
+			if e.rv > from && e.k.Group == group && e.k.Resource == resource && (ns == "" || e.k.Namespace == ns) {
+				w.push(e.t, e.obj)
+			}
 		}
 	}
 	c.watches = append(c.watches, w)
@@ -134,6 +146,15 @@ func (c *Cluster) addWatch(ctx context.Context, group, resource, ns string) watc
 		w.Stop()
 	}()
 	return w
+}
+
+// doListRV: the matching objects and the resource version of the store at that moment (what a WATCH continues from)
+func (c *Cluster) doListRV(group, resource, ns string, match func(*unstructured.Unstructured) bool) ([]*unstructured.Unstructured, string) {
+	c.mu.Lock()
+	rv := strconv.Itoa(c.rv)
+	c.mu.Unlock()
+	// (the version is read BEFORE the objects: a change in between is shown by the list and repeated by the watch, never lost)
+	return c.doList(group, resource, ns, match), rv
 }
 
 // ActiveWatches: WATCH streams nobody has stopped yet.
@@ -381,6 +402,10 @@ func (c *Cluster) doDelete(k Key, precondUID string) string {
 		return "conflict"
 	}
 	if c.Finalizer[k] {
+		if o.GetDeletionTimestamp() != nil {
+			// already being deleted: an API server leaves the object as it is (no new timestamp, no watch event)
+			return "ok"
+		}
 		now := metav1Now()
 		o.SetDeletionTimestamp(&now)
 		c.notify(watch.Modified, k, o)
